@@ -37,6 +37,32 @@ CHECKS["C17"] = dict(
   text="All reachable states of <= 4 transactions x <= 3 keys over slot layouts that force collisions, every relative order of start/commit timestamps, every order of first-acquire / wake-up / unlock steps, checked against a ghost holder map (exclusivity, exact staleness, no stuck waiter in any terminal state). Part (b) drives the real LatchesScheduler goroutine through every order of caller steps.",
   note="Trusted: white-box accessors (tiny, add-only); recycle() kept out by pool size; keys within one Lock distinct; part (b) quiescence detection under GOMAXPROCS=1. Randomized stress named in the property is replaced by deeper exhaustive bounds.")
 
+CHECKS["C04"] = dict(
+  engine="parksched", category="model_checking", design="5/C04",
+  technique="passive request-stream monitor evaluated on every execution of exhaustive enumerations on the implementation (single faults / region errors / real splits at every RPC, one-key batches, heart-beat ticker fired at every point, program pairs under a preemption bound)",
+  text="The Percolator ordering and timestamp rules of the property are an automaton over the recorded request/response stream; it is run on every execution produced by four bounded-exhaustive enumerations of the real client (see evidence rule). Every explored stream is an implementation run.",
+  note=TXN_NOTE + " The property text is cut at 2048 characters; its last clause is read as the pessimistic-check flag.")
+CHECKS["C06"] = dict(
+  engine="parksched", category="model_checking", design="5/C06",
+  technique="exhaustive enumeration of transaction programs (lock-call options, aggressive-locking stages, commit/rollback) x contending transaction, all seam interleavings under a preemption bound on the implementation; invariant: no lock of an ended transaction once drained",
+  text="All programs of one transaction up to the depth bound from the per-mode alphabet, each against four contenders (none, optimistic writer, pessimistic locker, deadlock shape), every interleaving with <= P preemptions, no message lost; after everything drained and without moving the clock past any TTL the store is scanned for locks of ended transactions.",
+  note=TXN_NOTE)
+CHECKS["C09"] = dict(
+  engine="seqx", category="model_checking", design="5/C09",
+  technique="explicit-state BFS over sequences of topology changes, cache manipulations, stale PD answers and every lookup API on the real RegionCache over the mock cluster (canonical state = topology + white-box cache dump)",
+  text="Breadth-first search to the depth bound over an alphabet of 87-207 operations from two root topologies, plain and mem-comparable PD codecs; after every operation all lookup results are checked for containment / gap-free coverage / grouping, the cache index for regression, and a Get for every key must converge to the true leader.",
+  note="Trusted: mock cluster as ground truth (epochs patched to TiKV rules after split/merge), white-box accessors, background goroutines replaced by explicit explorer operations, back-off via the repo's skip-sleep failpoint.")
+CHECKS["C10"] = dict(
+  engine="envx", category="fault_enumeration", design="5/C10",
+  technique="exhaustive enumeration of fault scripts (all answer sequences up to length F from 21-33 answers, with success / repeat-last / cycle tails) x replica-read modes x commands x liveness x forwarding on the real RegionRequestSender with a scripted client",
+  text="Every script of store answers up to the bound, for every configuration of the grid, is run through the real SendReqCtx; bounded attempts, back-off budget, genuine responses only, write commands never flagged replica/stale read, read-ts validation, retry marker and peer targeting are checked on every attempt.",
+  note="Trusted: scripted client / liveness probe, the repo's skip-sleep failpoint for back-off (accounting stays real), deterministic jitter shim for config/retry/config.go; one SendReqCtx call per run.")
+CHECKS["C20"] = dict(
+  engine="seqx", category="model_checking", design="5/C20",
+  technique="explicit-state BFS over operation sequences of the real Backoffer (virtual clock and jitter as enumerated environment answers) against a reference accountant",
+  text="All sequences up to the depth bound of Backoff kinds, per-call maxima, Clone/Fork/UpdateUsingForked/Reset, cancel/kill between and during sleeps, over two budgets and two weights, jitter in {min,max}; after each operation totals, per-kind accounting, error kind on exhaustion and sleep bounds are compared with an integer reference model.",
+  note="Trusted: vtime/vrand shims injected by import rewriting of config/retry; excluded kind's cap lowered with the package's test setter so exhaustion is reachable; merge specified as copy onto the parent chain.")
+
 PENDING = {}
 for p in ALL:
     if p not in CHECKS:
@@ -55,8 +81,9 @@ def main():
      },
      "engines": [
       {"name": "enum", "path": "harness/c19", "serves_properties": ["C19"], "kind_free_text": "bounded exhaustive input enumeration against laws/reference decoders"},
-      {"name": "parksched", "path": "rt/sched", "serves_properties": ["C01", "C02", "C03"], "kind_free_text": "controlled scheduler for real goroutines parked at seam points + deviation-bounded stateless DFS (preemption / fault budgets), replay by event identity, sharded over worker processes"},
-      {"name": "seqx", "path": "harness/c17", "serves_properties": ["C17"], "kind_free_text": "explicit-state BFS over operation sequences of real objects against a reference model"},
+      {"name": "envx", "path": "harness/c10", "serves_properties": ["C10"], "kind_free_text": "deviation-bounded enumeration of environment answers (fault scripts) on sequential code"},
+      {"name": "parksched", "path": "rt/sched", "serves_properties": ["C01", "C02", "C03", "C04", "C06"], "kind_free_text": "controlled scheduler for real goroutines parked at seam points + deviation-bounded stateless DFS (preemption / fault budgets), replay by event identity, sharded over worker processes"},
+      {"name": "seqx", "path": "harness/c17", "serves_properties": ["C09", "C17", "C20"], "kind_free_text": "explicit-state BFS over operation sequences of real objects against a reference model"},
      ],
      "checks": [],
      "not_applicable": [],
